@@ -5,10 +5,20 @@ ENGINES = [
                         "(Abs: pending, up[sr], Min(up); Impl: per-key-group bounded cache with byte accounting, allDataInCache, "
                         "heap of partitions, checkpoint/restore); TLC exhaustive + behaviours replayed on the real registry over "
                         "a real dkv.DB and through a real operator.Operator (harness/cmd/timers)"),
+    dict(name="TimersOp", path="spec/TimersOp.tla", serves_properties=["C10", "C11"],
+         kind_free_text="TLA+ spec of the operator's pipeline around its timers: handler-event batcher (1-3 items, batch timer) "
+                        "between 'timer due' and 'TimerExpired given to the handler', checkpoint barriers of several runners with "
+                        "traffic in between, DKV checkpoint cut, crash/restore into a fresh Operator, re-deployment of the same "
+                        "Operator with and without a checkpoint, the watermark told to the handler; TLC exhaustive + simulated "
+                        "behaviours and witness schedules of two deviations replayed on a real operator.Operator with a manually "
+                        "fired batch timer (harness/cmd/timers mode opbatch), judged at the handler by a ledger whose restored "
+                        "timelines are read from the restored keyed state"),
     dict(name="Watermark", path="spec/Watermark.tla", serves_properties=["C11"],
          kind_free_text="TLA+ spec of the source runner's watermark stamping (placeholder queue, Watermarker.maxTimestamp, "
-                        "stamp at send); TLC exhaustive + behaviours replayed on wmark.Watermarker + streams recorded from real "
-                        "SourceRunners validated by WatermarkTrace.tla"),
+                        "stamp at send; optionally asynchronous keying, back-pressure of a slow operator, eager sender); TLC exhaustive "
+                        "+ behaviours replayed on wmark.Watermarker + schedules (reads, ticks, keying completions, operator "
+                        "deliveries) replayed on a real SourceRunner through gated adapters + streams recorded from free-running "
+                        "SourceRunners, all streams validated by WatermarkTrace.tla"),
 ]
 CHECKS = {
     "C10": dict(
@@ -16,22 +26,33 @@ CHECKS = {
         technique="TLA+/TLC model checking of Timers.tla; TLC-generated histories (registrations, re-registrations, watermark "
                   "advances of 1-3 runners, timers registered from inside the firing iteration, DKV checkpoint + restore at any "
                   "position, cache capacity 0-3 entries) replayed on the real TimerRegistry/TimerStore over dkv.DB and through "
-                  "operator.Operator; witness schedules of the repaired deviations replayed as regression schedules",
+                  "operator.Operator; witness schedules of the repaired deviations replayed as regression schedules; TimersOp.tla "
+                  "(event batches of 1-3 items, checkpoint cut between the barriers of 2-3 runners, crash/restore, redeploy) model "
+                  "checked and its behaviours + the witnesses of 'batch flushed at the first barrier' replayed on a real Operator",
         text="TLC exhaustively checks that every AdvanceWatermark returns exactly the pending timers at or before Min(up), once, in "
              "non-decreasing time, that the DB holds exactly the pending set (so restore preserves it) and that the cache is a "
              "prefix of the DB order, for small constants; hundreds of simulated histories per tier are executed on the real code "
-             "and every returned timer / TimerExpired delivery is compared with the set the property demands.",
+             "and every returned timer / TimerExpired delivery is compared with the set the property demands. At operator level "
+             "(batched handler events, barriers of several runners, restore / redeploy from the reported checkpoint) every TimerExpired "
+             "must be pending in its timeline - after a restore: pending according to the restored keyed state - and nothing due may "
+             "stay pending once the batch delay has elapsed.",
         note="Bounded constants (<=4 keys in <=3 key groups, times 0..5, <=3 runners); DKV with default memtable (no flush; "
-             "flushed read paths belong to C07/C08); iterator always consumed to the end; batch size 1 in operator mode."),
+             "flushed read paths belong to C07/C08); iterator always consumed to the end; operator level: a barriered runner sends "
+             "nothing until the checkpoint completes (C02), same-object redeploy only with no checkpoint open and an empty batch (C15)."),
     "C11": dict(
         engine="Watermark",
         technique="TLA+/TLC model checking of Watermark.tla and Timers.tla; TLC-generated timestamp/tick sequences replayed on "
                   "wmark.Watermarker; every interleaving of <=4 watermark messages of 2-3 runners with events enumerated by TLC and "
-                  "executed on a real operator.Operator; streams of real SourceRunners validated against WatermarkTrace.tla",
+                  "executed on a real operator.Operator; TimersOp.tla behaviours (restore, redeploy of the same Operator, batches) and the "
+                  "witnesses of 'told watermark survives a redeploy' executed on a real Operator; schedules of Watermark.tla with "
+                  "asynchronous keying and a slow operator (and the witnesses of 'maxTimestamp advances at keying') replayed on a real "
+                  "SourceRunner through gated adapters; streams of real SourceRunners validated against WatermarkTrace.tla",
         text="Runner half: watermark values non-decreasing, below the largest forwarded event timestamp and within 1ns of it, for all "
              "timestamp sequences of length <=5 over 4 values with ticks anywhere (TLC exhaustive; replay on Watermarker; recorded "
              "SourceRunner streams). Operator half: ProcessEventBatchRequest.Watermark = Min(up) with unreported runners at the "
-             "epoch on every handler call, and no TimerExpired later than Min(up), for all interleavings within the bound.",
+             "epoch on every handler call - including the first calls of a new deployment of the same Operator object - and no "
+             "TimerExpired later than Min(up), for all interleavings within the bound.",
         note="allowedLateness is unexported and zero in the runner (lateness>0 only model checked); the runner's 200 ms ticker is a "
-             "real time.Ticker (tick positions in SourceRunner streams are uncontrolled); one operator per recorded runner."),
+             "real time.Ticker: in schedule replay a Tick step waits for its next boundary (other steps take ~4 ms), in the free-running "
+             "streams tick positions are uncontrolled; one operator per runner (its stream is the runner's forwarding order)."),
 }
